@@ -120,6 +120,29 @@ var opProgs = []totalProg{
 	{"[a, b]", []string{"a", "b"}, []*types.Type{tNum, tNum}},
 	{"[s: a, u: b]", []string{"s", "u", "a", "b"}, []*types.Type{tStr, tStr, tNum, tNum}},
 	{"{x: a, y: s}", []string{"a", "s"}, []*types.Type{tNum, tStr}},
+	// compound forms a peephole-optimising compiler rewrites (the rewritings
+	// are identities on ordinary numbers only: NaN, infinities and -0 tell)
+	{"!(a < b)", []string{"a", "b"}, []*types.Type{tNum, tNum}},
+	{"!(a <= b)", []string{"a", "b"}, []*types.Type{tNum, tNum}},
+	{"!(a > b)", []string{"a", "b"}, []*types.Type{tNum, tNum}},
+	{"!(a >= b)", []string{"a", "b"}, []*types.Type{tNum, tNum}},
+	{"!(a == b)", []string{"a", "b"}, []*types.Type{tNum, tNum}},
+	{"!(a != b)", []string{"a", "b"}, []*types.Type{tNum, tNum}},
+	{"-(a - b)", []string{"a", "b"}, []*types.Type{tNum, tNum}},
+	{"-(-a) + b", []string{"a", "b"}, []*types.Type{tNum, tNum}},
+	{"a + 0 == a || b > 0", []string{"a", "b"}, []*types.Type{tNum, tNum}},
+	{"a * 1 - b * 0", []string{"a", "b"}, []*types.Type{tNum, tNum}},
+	{"a - a + b", []string{"a", "b"}, []*types.Type{tNum, tNum}},
+	{"0 * a + b", []string{"a", "b"}, []*types.Type{tNum, tNum}},
+	{"a == a && b == b", []string{"a", "b"}, []*types.Type{tNum, tNum}},
+	{"a / a + b / b", []string{"a", "b"}, []*types.Type{tNum, tNum}},
+	{"if(a < b, a, b) == min(a, b)", []string{"a", "b"}, []*types.Type{tNum, tNum}},
+	{"!(a < b) == (a >= b)", []string{"a", "b"}, []*types.Type{tNum, tNum}},
+	{"!(c && d)", []string{"c", "d"}, []*types.Type{tBool, tBool}},
+	{"!(!c) || !(c == d)", []string{"c", "d"}, []*types.Type{tBool, tBool}},
+	{"!(s == u) && !(s != u)", []string{"s", "u"}, []*types.Type{tStr, tStr}},
+	{"!(t < v) || !(t == v)", []string{"t", "v"}, []*types.Type{tTime, tTime}},
+	{"!(xs == ys)", []string{"xs", "ys"}, []*types.Type{tLN, tLN}},
 	// a string literal with the text of an identifier / field name
 	{"s == \"s\"", []string{"s"}, []*types.Type{tStr}},
 	{"{a: \"a\", b: \"p\"}.a + p.b + m[\"m\"] == p.b", []string{"p", "m"}, []*types.Type{TObjAB, types.Map(tStr, tStr)}},
